@@ -2,6 +2,7 @@
   C12 — generated salts carry the supplied randomness; auto-entropy comes from the OS.
 -/
 import Xc.Lemmas.Gensalt
+import Xc.Lemmas.Accept2
 namespace Xc.C12
 open Xc
 
@@ -40,5 +41,44 @@ theorem enc24_inj (v w : Nat) (hv : v < 2 ^ 24) (hw : w < 2 ^ 24) (h : enc24 v =
   obtain ⟨h0, h1, h2, h3⟩ := h
   have := key _ _ h0; have := key _ _ h1; have := key _ _ h2; have := key _ _ h3
   omega
+
+/-! ### yescrypt family: the salt IS the random input (128..512 bits), injectively encoded -/
+
+/-- yescrypt, gost-yescrypt, scrypt: a generated setting determines the `min nrbytes 64 ≥ 16` random bytes it was made from -/
+theorem C12_yescrypt_family_injective (count : Nat) (rb rb' : Bytes) (n osize osize' : Nat) (S : Bytes) (e e' : Nat) :
+    (gensaltYescrypt count rb n osize = .ok S e → gensaltYescrypt count rb' n osize' = .ok S e' →
+      16 ≤ min n 64 ∧ padTo rb (min n 64) = padTo rb' (min n 64)) ∧
+    (gensaltGost count rb n osize = .ok S e → gensaltGost count rb' n osize' = .ok S e' →
+      16 ≤ min n 64 ∧ padTo rb (min n 64) = padTo rb' (min n 64)) ∧
+    (gensaltScrypt count rb n osize = .ok S e → gensaltScrypt count rb' n osize' = .ok S e' →
+      16 ≤ min n 64 ∧ padTo rb (min n 64) = padTo rb' (min n 64)) := by
+  refine ⟨fun h h' => ?_, fun h h' => ?_, fun h h' => ?_⟩
+  · obtain ⟨_, _, hn, hS⟩ := gensaltYescrypt_shape h
+    obtain ⟨_, _, _, hS'⟩ := gensaltYescrypt_shape h'
+    rw [hS] at hS'
+    exact ⟨hn, encode64_inj _ _ (by simp [padTo_length]) (List.append_cancel_left hS')⟩
+  · obtain ⟨_, _, hn, hS⟩ := gensaltGost_shape h
+    obtain ⟨_, _, _, hS'⟩ := gensaltGost_shape h'
+    rw [hS] at hS'
+    exact ⟨hn, encode64_inj _ _ (by simp [padTo_length]) (List.append_cancel_left hS')⟩
+  · obtain ⟨_, _, hn, hS⟩ := gensaltScrypt_shape h
+    obtain ⟨_, _, _, hS'⟩ := gensaltScrypt_shape h'
+    rw [hS] at hS'
+    exact ⟨hn, encode64_inj _ _ (by simp [padTo_length]) (List.append_cancel_left hS')⟩
+
+/-- … and `crypt` hands exactly those bytes to the KDF as the salt (yescrypt and gost-yescrypt decode the text back;
+    `$7$` uses the text itself): see `C11_yescrypt_applied`, `C11_gost_applied`, `C11_scrypt_applied`. -/
+theorem C12_yescrypt_salt_is_input (count : Nat) (rb : Bytes) (n osize : Nat) (S : Bytes) (e : Nat)
+    (h : gensaltYescrypt count rb n osize = .ok S e) :
+    parseYescrypt S Gen.CRYPT_OUTPUT_SIZE =
+      some { params := yesParamsOf (dfl count 5), prefixlen := 7, saltstrlen := (encode64 (padTo rb (min n 64))).length, salt := padTo rb (min n 64) } := by
+  obtain ⟨c1, c2, hn, hS⟩ := gensaltYescrypt_shape h
+  have hsl : (padTo rb (min n 64)).length ≤ 64 := by rw [padTo_length]; omega
+  have hel : (encode64 (padTo rb (min n 64))).length ≤ 86 := by rw [encode64_length]; exact base64Len_le _ hsl
+  rw [hS]
+  exact parseYescrypt_gen _ c1 c2 _ hsl _ (by
+    have : Gen.CRYPT_OUTPUT_SIZE = 384 := rfl
+    have : Gen.YESCRYPT_HASH_LEN = 43 := rfl
+    omega)
 
 end Xc.C12
